@@ -4,8 +4,10 @@
 
   Part 1: the executable MODEL.  It follows the code: the same loops, the same index arithmetic
   (reversed mask + `argmax`, `range(1, max_path_length)`, `int(dir * i)`, accumulated `tmp += dir`), the
-  same zero-initialised accumulators, the same `-=` / `+=` on the flag word, `nanmedian`, `argsort` with
-  NaN last, the same order of the two passes.
+  same accumulators and guards, the same `-=` then `+=` / `|=` on the flag word, `nanmedian`, `argsort` with
+  NaN last, the same order of the two passes.  It is parametrised by the text of the kernels (`Variant`:
+  with / without the guards of e1d31ca, `+=` / `|=` of 7723010); the variant of the current source is read
+  by the translator.
 
   Part 2: the executable SPECIFICATION, written from the property statement: a relation between the map
   before and after filling, clause by clause, in terms of "first valid pixel on a ray" (a list cut where it
